@@ -5,7 +5,8 @@ import AnySyncModel.Generated.AuthShape
   reset
   acl <rec>:<eff>/<eff>… …         eff = a<acc>=<perm> | r<acc>=<perm> | t<acc> ; `-` = no effect
   tree <raw>                        → ok | err:<enum>
-  add <raw> <raw> …                 → <status> add=<ids in attach order> h=… a=… s=… sh=…   (sorted sets)
+  add <raw> <raw> …                 → <status> add=<ids in attach order> h=… a=… s=… sh=… br=n   (sorted sets)
+                                      on the rebuildFromStorage branch: status ok|err, add= sorted, br=r
   content id=<n> acc=<a>            → like add (the local AddContent path; id = the id the real builder produced)
   aclfault <rec>                    → ok   (a refused ACL record: the local log does not change)
   reopen                            → ok | err
@@ -113,9 +114,14 @@ def step (st : St) (line : String) : St × String :=
     | some t, some raws =>
       let cids := raws.map (fun x => (x.1.body.bytes, x.2)) ++ st.cids
       let (o, added, t') := addRaw (hOf cids) cw keep st.log t (raws.map (·.1))
+      -- on the rebuildFromStorage branch the real code validates in iteration order and collects the
+      -- new changes from a Go map: the error kind and the order of `Added` are not compared there
+      let br := takesRebuild (hOf cids) t (raws.map (·.1))
       let status := match o with
-        | .ok => "ok" | .err e => showErr e | .rebuild => "rebuild"
-      ({ st with cids := cids, tree := some t' }, s!"{status} add={showIds added} {post t'}")
+        | .ok => "ok" | .err e => (if br then "err" else showErr e) | .rebuild => "rebuild"
+      let addedShown := if br then sortNats added else added
+      let brs := if br then "r" else "n"
+      ({ st with cids := cids, tree := some t' }, s!"{status} add={showIds addedShown} {post t'} br={brs}")
     | _, _ => (st, "bad-op")
   | "validate" :: hs :: r :: rs =>
     match (if hs.startsWith "heads=" then parseIds (hs.drop 6).toString else none), parseRaw r, rs.mapM parseRaw with
